@@ -28,6 +28,22 @@ Check =
     last in payload order in its group, and a sort keyed on an opposing difference insertion (every
     public value NaN) leaves body and subtotal group in payload order; a directed stream generates both
     situations in every run.
+(c) references to items of ARRAY dimensions that match nothing (added after seeded change C08-6: the
+    last-resort "take the id as the subvariable's position" step of _ElementIdShim.translate_element_id lost
+    its 0 <= id < n range check, so a sort by opposing element -1 / '-1' was keyed on the LAST subvariable
+    instead of falling back; oracle (b) could not see it because it took "unknown element id" from the
+    implementation's own translation, and no stream produced negative stale ids on array dimensions).
+    Which references certainly name no item of an MR / CA-subvariables / numeric-array dimension - no
+    alias, subvariable id or element id in any spelling and, as a number, outside 0..n-1 - is now decided
+    from the raw response (`matches_nothing`, shared with C07's leg (c)): as the key of a sort by opposing
+    element (opposing insertion for rows against array columns) such a reference makes oracle (b) expect
+    the fallback whatever the implementation translated it to; inside fixed top / bottom lists (and
+    element-transform keys) it must leave no trace: the partition equals the one of the same transforms
+    without it (relational, `unmatched_refs_leg`, run on every case; it also holds the fallback
+    expectation for NUM_ARRAY x CAT slices, which the model correspondence skips).  A stream of its own
+    (`gen_stale_ref_case`) points sort keys, fixed lists and hide keys at such references: negative ints
+    and numeric strings in -n..-1 and below -n, numbers >= n, non-numeric strings, on MR, CA and numeric
+    arrays as sorted or opposing dimension.
 """
 import copy
 import json
@@ -40,6 +56,10 @@ from harness import core, gen, impl
 from harness.core import g_bool, g_list, g_nat, g_opt, g_str
 from harness.props import common_cases as cc
 from harness.props import order_util as ou
+# which references certainly name no item of an array dimension (from the raw response alone) and the
+# transforms without them: shared with C07's leg (c), see there
+from harness.props.c07 import (array_facts_by_key, drop_unmatched_refs, known_refs_pool, matches_nothing,
+                               stale_ref_class, stale_refs_pool)
 
 PID = "C08"
 IMPORTS = ou.IMPORTS + "\nFrom CC Require Import Model.SortKeys."
@@ -410,6 +430,120 @@ def gen_population_difference_case(rng, k, tables, tries=60):
     return case
 
 
+# ---- stream (c): references that match nothing on ARRAY dimensions ---------------------------------
+
+
+def pick_stale_ref(rng, facts):
+    """a reference that names no item of the array dimension: mostly a negative number from -1 down to
+    -n (int or numeric string), else below -n, >= n or not a number"""
+    pool = stale_refs_pool(rng, facts)
+    want = rng.choice(["negative-within", "negative-within", "negative-within", "negative-below",
+                       "too-large", "non-numeric", ""])
+    pool = [x for x in pool if stale_ref_class(x, facts).startswith(want)] or pool
+    return rng.choice(pool) if pool else None
+
+
+def point_orders_at_stale_refs(rng, case, tables, slots=("key", "fixed", "hide")):
+    """re-write the order transforms of a case so that every slot that takes a reference to an item of
+    an ARRAY dimension holds one that matches nothing: the key of a sort by opposing element (opposing
+    insertion for rows against array columns), the fixed top / bottom lists of a sorted array dimension,
+    element-transform keys.  -> [(slot, reference)]"""
+    strand = case["strand"]
+    facts = array_facts_by_key(case["response"], strand)
+    keys = ["rows_dimension"] if strand else ["rows_dimension", "columns_dimension"]
+    done = []
+    for n, key in enumerate(keys):
+        t = case["transforms"].setdefault(key, {})
+        own = facts.get(key)
+        opp = None if strand else facts.get(keys[1 - n])
+        o = t.get("order")
+        if "key" in slots and opp is not None and (isinstance(o, dict) or rng.random() < 0.6) and (
+                rng.random() < 0.75 or slots == ("key",)):
+            x = pick_stale_ref(rng, opp)
+            if x is not None:
+                o = dict(o) if isinstance(o, dict) else {}
+                if key == "rows_dimension" and rng.random() < 0.2:
+                    o.pop("element_id", None)
+                    o.update(type="opposing_insertion", insertion_id=x)
+                    done.append(("opposing-insertion-id", x))
+                else:
+                    o.pop("insertion_id", None)
+                    o.update(type="opposing_element", element_id=x)
+                    done.append(("opposing-element-id", x))
+                o.pop("marginal", None)
+                if o.get("measure") not in tables.keywords("matrix") or rng.random() < 0.3:
+                    o["measure"] = rng.choice(case.get("stale_measures") or tables.keywords("matrix"))
+                t["order"] = o
+        if "fixed" in slots and own is not None and rng.random() < 0.8:
+            if not isinstance(o, dict):
+                # a key that can always be resolved, so that the fixed lists are honoured
+                o = {"type": "label", "direction": rng.choice(["ascending", "descending"])}
+                t["order"] = o
+            fixed = dict(o.get("fixed") or {})
+            known = known_refs_pool(own)
+            for end in rng.choice([("top",), ("bottom",), ("top", "bottom")]):
+                l = list(fixed.get(end) or [])
+                if not l and known and rng.random() < 0.5:
+                    l = [rng.choice(known)]
+                x = pick_stale_ref(rng, own)
+                if x is not None:
+                    l.insert(rng.randint(0, len(l)), x)
+                    done.append(("fixed-" + end, x))
+                fixed[end] = l
+            o["fixed"] = fixed
+        if "hide" in slots and own is not None and rng.random() < 0.25:
+            x = pick_stale_ref(rng, own)
+            els = dict(t.get("elements") or {})
+            if x is not None and str(x) not in [str(i) for i in els]:
+                els[str(x) if rng.random() < 0.6 else x] = {"hide": True}
+                t["elements"] = els
+                done.append(("hide", x))
+    return done
+
+
+def numarr_case(rng, k, tables):
+    """numeric array (means) alone or by a categorical variable, every dimension sorted by value"""
+    from harness.props import c19_util
+    by_cat = rng.random() < 0.65
+    resp = c19_util.numarr_response(rng, rng.randint(2, 5), by_cat=by_cat)
+    transforms = {}
+    if by_cat:
+        cat_ids = [c["id"] for c in resp["result"]["dimensions"][0]["type"]["categories"] if not c.get("missing")]
+        transforms["rows_dimension"] = {"order": {
+            "type": "opposing_element", "element_id": rng.choice(cat_ids), "measure": "mean",
+            "direction": rng.choice(["ascending", "descending"])}}
+        transforms["columns_dimension"] = {"order": {
+            "type": "opposing_element", "element_id": rng.randint(0, 1), "measure": "mean"}}
+    else:
+        transforms["rows_dimension"] = {"order": rng.choice([
+            {"type": "univariate_measure", "measure": "mean"}, {"type": "label", "direction": "ascending"}])}
+    return {"k": k, "response": resp, "transforms": transforms, "strand": not by_cat, "population": None,
+            "kinds": ["numarr", "cat"] if by_cat else ["numarr"], "malformed": False,
+            "stale_measures": ["mean"]}
+
+
+def gen_stale_ref_case(rng, k, tables, kw_cycle, slots=("key", "fixed", "hide"), tries=40):
+    """separate stream (after seeded change C08-6): sorts whose key, fixed lists or element-transform keys
+    name an item of an MR / CA-subvariables / numeric-array dimension by a reference that matches nothing"""
+    case = None
+    for _ in range(tries):
+        if rng.random() < 0.12:
+            c = numarr_case(rng, k, tables)
+        else:
+            c = gen_case(rng, k, tables, kw_cycle, p_fixed=0.6)
+        if not any(array_facts_by_key(c["response"], c["strand"]).values()):
+            continue
+        written = point_orders_at_stale_refs(rng, c, tables, slots)
+        if written:
+            case = c
+            case["stale_refs"] = "x".join(str(x) for x in c["kinds"] if x)
+            break
+    if case is None:
+        case = gen_case(rng, k, tables, kw_cycle)
+    case.pop("stale_measures", None)
+    return case
+
+
 # ------------------------------------------------------------------------------------
 # reading the implementation
 # ------------------------------------------------------------------------------------
@@ -578,6 +712,7 @@ def prepare(case, tables):
         info = (info[0], info[1], 0, 0)
     nr, nrs, nc, ncs = info
     keys = ["rows_dimension"] if strand else ["rows_dimension", "columns_dimension"]
+    raw_facts = array_facts_by_key(resp, strand)
     views, terms = [], []
     # difference flags of the subtotals of each dimension (raw dicts); they must be as many as the
     # subtotals the implementation reports
@@ -642,6 +777,17 @@ def prepare(case, tables):
             v.pub = ("ok", lb) if lb is not None else ("absent", "labels")
         # --- opposing dimension ----------------------------------------------------------------
         v.opp_known = None
+        # the key names an item of an ARRAY opposing dimension by a reference that certainly matches
+        # nothing (decided from the raw response, NOT by the implementation's translation)
+        v.ref_unmatched = False
+        opp_facts = None if strand else raw_facts.get(keys[1 - k])
+        if opp_facts is not None:
+            if v.typ == "opposing_element" and "element_id" in od_raw:
+                v.ref_unmatched = matches_nothing(od_raw["element_id"], opp_facts)
+            elif v.typ == "opposing_insertion" and k == 0 and "insertion_id" in od_raw:
+                v.ref_unmatched = matches_nothing(od_raw["insertion_id"], opp_facts)
+            if v.ref_unmatched:
+                v.ref_class = stale_ref_class(od_raw.get("element_id", od_raw.get("insertion_id")), opp_facts)
         el_present, el_val, in_present, in_val = False, None, False, None
         opp_term = "(mkOpp [] [] false)"
         if not strand:
@@ -763,6 +909,9 @@ def resolve_expectation(v, strand):
         present, x = (v.el_present, v.el_val) if v.typ == "opposing_element" else (v.in_present, v.in_val)
         if not present:
             return ("skip", "id-field-absent")
+        if v.ref_unmatched:
+            # whatever the implementation made of it: it names no item, the key cannot be resolved
+            return ("payload", "unmatched-array-reference")
         if x not in v.opp_ids:
             return ("payload", "unknown-element-id")
         j = v.opp_ids.index(x)
@@ -934,7 +1083,70 @@ def compare_model(v, dec, obs, exp):
 
 def _replayable(case):
     return {k: case.get(k) for k in ("response", "transforms", "strand", "population", "k", "kinds",
-                                     "repeats", "population_difference")}
+                                     "repeats", "population_difference", "stale_refs")}
+
+
+def observe_run(case, transforms):
+    r = impl.guarded(lambda: impl.partition(copy.deepcopy(case["response"]), copy.deepcopy(transforms),
+                                            population=case.get("population")))
+    if r[0] != "ok":
+        return {"partition": ("exc", r[1])}
+    return ou.observe(r[1], case["strand"])
+
+
+def unmatched_refs_leg(case, rep, tables, prepared):
+    """(c) references to items of an ARRAY dimension that certainly match nothing (raw response):
+    in list / key slots (fixed top / bottom, explicit ids, element transforms) they must leave no trace -
+    the partition equals the one of the transforms without them; as the KEY of a sort by opposing element
+    they make the key unresolvable - that is part of oracle (b) (`v.ref_unmatched`), and is checked here
+    for the cases the model correspondence cannot take (numeric array by a categorical variable)."""
+    facts = array_facts_by_key(case["response"], case["strand"])
+    if not any(facts.values()):
+        return
+    rc = _replayable(case)
+    t2, dropped = drop_unmatched_refs(case["transforms"], facts)
+    seen = None
+    if dropped:
+        rep.dist("leg-c:cases-with-unmatched-array-references-in-lists")
+        for key, slot, x in dropped:
+            rep.dist("leg-c:%s:%s:%s" % (facts[key]["kind"], slot, stale_ref_class(x, facts[key])))
+        seen = observe_run(case, case["transforms"])
+        b = observe_run(case, t2)
+        if seen != b:
+            diff = sorted(k for k in set(seen) | set(b) if seen.get(k) != b.get(k))
+            rep.violation("oracle:unmatched-reference-not-ignored", rc,
+                          {"what": "unmatched-reference-not-ignored", "unmatched_references": dropped,
+                           "differs": diff, "with": {k: seen.get(k) for k in diff[:4]},
+                           "without": {k: b.get(k) for k in diff[:4]}, "transforms_without": t2},
+                          {"what": "unmatched-reference-not-ignored", "group": "fixed"})
+    if prepared or case["strand"]:
+        return
+    keys = ["rows_dimension", "columns_dimension"]
+    for n, key in enumerate(keys):
+        o = (case["transforms"].get(key) or {}).get("order")
+        opp = facts.get(keys[1 - n])
+        if not isinstance(o, dict) or opp is None or o.get("measure") not in tables.keywords("matrix"):
+            continue
+        if o.get("type") == "opposing_element" and "element_id" in o:
+            x = o["element_id"]
+        elif o.get("type") == "opposing_insertion" and n == 0 and "insertion_id" in o:
+            x = o["insertion_id"]
+        else:
+            continue
+        if not matches_nothing(x, opp):
+            continue
+        rep.dist("leg-c:%s:sort-key(relational only):%s" % (opp["kind"], stale_ref_class(x, opp)))
+        seen = seen or observe_run(case, case["transforms"])
+        pay = observe_run(case, without_order(case["transforms"], key))
+        axis = "row" if n == 0 else "column"
+        got = (seen.get(axis + "_order", seen.get("partition")), seen.get(axis + "_order_bogus"))
+        want = (pay.get(axis + "_order", pay.get("partition")), pay.get(axis + "_order_bogus"))
+        if got != want:
+            rep.violation("oracle:fallback", rc,
+                          {"what": "fallback", "why": "unmatched-array-reference", "axis": axis,
+                           "order_transform": o, "order": got[0], "payload_order": want[0],
+                           "bogus": got[1], "payload_bogus": want[1]},
+                          {"what": "fallback", "group": "fallback"})
 
 
 def run_cases(rep, cases, tables):
@@ -948,8 +1160,12 @@ def run_cases(rep, cases, tables):
     pos = 0
     for case, p in zip(cases, preps):
         rc = _replayable(case)
+        if case.get("stale_refs"):
+            rep.dist("stream:stale-array-references")
+            rep.dist("stream:stale-array-references:" + case["stale_refs"])
+        unmatched_refs_leg(case, rep, tables, isinstance(p, dict))
         if not isinstance(p, dict):
-            rep.count_case(rc, False)
+            rep.count_case(rc, bool(case.get("stale_refs")))
             rep.dist("skipped:" + p[1].split(":")[0])
             if p[1].startswith("partition-raises"):
                 rep.violation("impl-exception", rc, {"why": p[1]}, {"what": "partition-raises"})
@@ -980,6 +1196,8 @@ def run_cases(rep, cases, tables):
                 rep.dist("keyword:%s:%s" % ("strand" if case["strand"] else
                                             "marginal" if v.typ == "marginal" else "matrix", kw))
             rep.dist("expect:" + exp[0] + (":" + exp[1].split(":")[0] if exp[0] != "sorted" else ""))
+            if v.ref_unmatched:
+                rep.dist("leg-c:sort-key:%s@%s:%s" % (v.typ, v.place, v.ref_class))
             if dec["found"][0] == "exc":
                 rep.dist("model:escaping-" + dec["found"][1])
             if exp[0] == "sorted":
@@ -1136,6 +1354,13 @@ def run(tier, seed):
     rng_pd = random.Random("C08-population-difference-%s" % seed)
     cases += [gen_population_difference_case(rng_pd, len(cases) + k, tables)
               for k in range(80 if tier == "quick" else 800)]
+    rng_sr = random.Random("C08-stale-array-references-%s" % seed)
+    n_sr = 160 if tier == "quick" else 1600
+    # the sort key alone first (this property's own slot), then with fixed lists, then with hide keys too
+    cases += [gen_stale_ref_case(rng_sr, len(cases) + k, tables, kw_cycle,
+                                 ("key",) if 5 * k < 2 * n_sr else ("key", "fixed") if 10 * k < 7 * n_sr
+                                 else ("key", "fixed", "hide"))
+              for k in range(n_sr)]
     coq_s, n_terms = run_cases(rep, cases, tables)
     s2, n2 = run_scope(rep, rng, 600 if tier == "quick" else 7500)
     coq_s, n_terms = coq_s + s2, n_terms + n2
@@ -1161,6 +1386,10 @@ def run(tier, seed):
         "first mention counts); + an 80-case stream (800 thorough, own generator state) of sorts by the "
         "`population` keyword on a dimension with a difference subtotal in its subtotal group or keyed on an "
         "opposing difference insertion (population_difference_classes_not_exercised must be []); "
+        "+ a 160-case stream (1600 thorough, own generator state) of leg (c): MR / CA / numeric-array dimensions "
+        "(numeric array alone or by CAT on ~12%) whose sort key (first 40%), fixed top / bottom lists (next 30%) "
+        "and hide keys (rest) name references that match nothing - negative ints / numeric strings in -n..-1 and "
+        "below -n, numbers >= n, non-numeric strings (distribution keys leg-c:*); leg (c) runs on every case; "
         "+ small scope on SortByValueCollator.display_order itself: "
         "value patterns {NaN,-inf,0,1,+inf}^4 x direction x 6 fixed configurations, two of them with repeated "
         "ids (subtotal values, hidden "
@@ -1174,7 +1403,12 @@ def run(tier, seed):
         "and is not generated",
         "for array dimensions the shimmed element ids / fixed ids and the translation of the opposing "
         "element id are the implementation's (identifier translation is C19's); insertion ids are read "
-        "from the implementation's Dimension objects (C07's)",
+        "from the implementation's Dimension objects (C07's); EXCEPT references that certainly match nothing on an "
+        "array dimension (leg (c)): decided from the raw response, conservatively (anything equal to an alias / "
+        "subvariable id / element id in some spelling, bools, floats, null, non-ASCII strings are left to the "
+        "implementation's translation)",
+        "NUM_ARRAY x CAT slices are outside the model correspondence (skipped:dims-unavailable); leg (c) checks "
+        "them relationally",
         "empty-vector indexes are the implementation's own pruning masks (C09's)",
         "order transforms whose keyword field is absent (KeyError) or names a member of MEASURE that has "
         "no sort entry (NotImplementedError) are outside the property text: only the correspondence with "
